@@ -46,7 +46,7 @@ CLAIMED = {
         design='DESIGN.md §7 C10', note=BASE_NOTE + ' The abstraction function (content -> Content record) is part of the trusted harness.'),
     'C16': dict(
         technique='Lean 4 theorems about a literal List-Char model of _parse_phoenix_line / parse_phoenix_prot + differential correspondence on generated grammar lines and the real protocol text',
-        text='Proved for all inputs: blank and comment-only lines give None, lines without = raise, unknown protocol key raises, the protocol loop stops at the first malformed line, later duplicates overwrite and other keys are untouched, strip/find lemmas; kernel-evaluated instances for every value kind x dialect (including # and = inside quotes, trailing comments) and for the malformed variants; F8 (hex tried before float) is a kernel-checked witness. The unbounded round-trip theorem over the whole line grammar is not yet proved (stated in DESIGN.md); the grammar is covered by the correspondence (model = implementation on every generated line) and by the oracle.',
+        text='Proved for all inputs: blank and comment-only lines give None, lines without = raise, unknown protocol key raises, the protocol loop stops at the first malformed line, later duplicates overwrite and other keys are untouched, strip/find lemmas; kernel-evaluated instances for every value kind x dialect (including # and = inside quotes, trailing comments) and for the malformed variants; F8 (hex tried before float) is a kernel-checked witness. Unbounded round trip proved: for either dialect, any whitespace layout, any well-formed key and an optional trailing comment, a quoted string without a quote character (# and = allowed) parses to exactly its content (parse_render_string), a number token reaches the numeric conversions unchanged (parse_render_number), decimal / 0x-hex digit strings of any length give their value and tokens with a point or exponent sign give the float lexeme or the parse error, never an integer (parseNumber_dec/hex/float); a whole protocol text laid out between the markers yields the dictionary folded from its lines (parseProt_render). The correspondence (model = implementation on every generated line, protocol and the real protocol text) ties the model to the code; call histories probe hidden state.',
         design='DESIGN.md §7 C16', note=BASE_NOTE + ' CPython int()/float() numeric conversion of an accepted lexeme is trusted.'),
     'C17': dict(
         technique='Lean 4 theorems: 48x48 orientation table and 216 letter triples by decide +kernel lifted to all strings / shapes / zooms by lemmas + exhaustive 48x48 correspondence',
